@@ -382,6 +382,129 @@ pub fn grid() -> Vec<Cell> {
     v
 }
 
+// --------------------------------------------------------------------------------------------
+// the same cells over the REAL accept path: a bound socket with a monitor installed. On the
+// bind side there is no caller, so the monitor is where a rejection is reported.
+
+#[derive(Debug, Clone, Serialize, Deserialize, PartialEq, Eq, Hash)]
+pub struct AcceptCase {
+    pub cell: Cell,
+    pub ipc: bool,
+}
+
+pub fn accept_outcome(c: &AcceptCase) -> Outcome {
+    use crate::realnet::{self, eventually, Transport, LIMIT};
+    use zeromq::SocketEvent;
+    let mut o = Outcome::new(hash_of(c));
+    let (admit, why) = c.cell.should_admit();
+    o.nontrivial = !admit;
+    o.class(if admit { "accept-path-admitted" } else { "accept-path-rejected" });
+    let c2 = c.clone();
+    let (r, panics) = capture_panics(|| {
+        realnet::run_net(async move {
+            let c = c2;
+            let kind = c.cell.local;
+            let who = kind.name();
+            let mut f: Vec<Failure> = vec![];
+            let mut s = crate::sim::AnySocket::new(kind, None);
+            let mut monitor = realnet::sock_monitor(&mut s);
+            let transport = if c.ipc { Transport::Ipc } else { Transport::TcpV4 };
+            let ep = match realnet::sock_bind(&mut s, &transport.bind_text()).await {
+                Ok(e) => e.to_string(),
+                Err(e) => {
+                    fail!(f, format!("C04/accept/{}/setup-bind", who), "{:?}", e);
+                    return f;
+                }
+            };
+            let mut rc = match realnet::raw_connect(&ep).await {
+                Ok(rc) => rc,
+                Err(e) => {
+                    fail!(f, format!("C04/accept/{}/setup-connect", who), "{}", e);
+                    return f;
+                }
+            };
+            let _ = rc.write(&c.cell.peer_bytes()).await;
+            let mut accepted = 0usize;
+            let mut failed = 0usize;
+            let mut drain = |accepted: &mut usize, failed: &mut usize| {
+                while let Ok(Some(ev)) = monitor.try_next() {
+                    match ev {
+                        SocketEvent::Accepted(..) => *accepted += 1,
+                        SocketEvent::AcceptFailed(_) => *failed += 1,
+                        _ => {}
+                    }
+                }
+            };
+            let ok = eventually(LIMIT, || {
+                drain(&mut accepted, &mut failed);
+                accepted + failed >= 1
+            })
+            .await;
+            tokio::time::sleep(std::time::Duration::from_millis(3)).await;
+            drain(&mut accepted, &mut failed);
+            if admit {
+                if !ok || accepted != 1 || failed != 0 {
+                    fail!(f, format!("C04/accept/{}/valid-peer-not-reported-as-accepted", who), "a well-formed, compatible peer: monitor reported {} Accepted and {} AcceptFailed events", accepted, failed);
+                }
+            } else {
+                if accepted > 0 {
+                    fail!(f, format!("C04/accept/{}/admits-invalid-peer", who), "{}: the monitor reported Accepted", why);
+                }
+                if failed != 1 {
+                    fail!(f, format!("C04/accept/{}/rejection-not-reported-to-monitor", who), "{}: the connection must be refused and that reported once as AcceptFailed; the monitor reported {} such events within {:?}", why, failed, LIMIT);
+                }
+                if !rc.await_end(LIMIT).await {
+                    fail!(f, format!("C04/accept/{}/rejected-connection-not-closed", who), "{}: the connection is still open {:?} later", why, LIMIT);
+                }
+            }
+            drop(rc);
+            let _ = tokio::time::timeout(LIMIT, realnet::sock_close(s)).await;
+            f
+        })
+    });
+    if let Some(f) = r {
+        o.failures = f;
+    }
+    for p in panics {
+        o.fail(format!("C04/panic/{}", panic_sig(&p)), p);
+    }
+    o
+}
+
+/// every cell that differs from the all-valid cell in at most one coordinate
+pub fn accept_grid() -> Vec<AcceptCase> {
+    let mut v = vec![];
+    for local in ALL_KINDS {
+        let compat = (0..12u8).find(|i| rfc_compatible(local.name(), TYPE_NAMES[*i as usize])).unwrap_or(0);
+        let base = Cell { local, peer_type: PeerType::Named(compat), version: (3, 0), mech: Mech::Null, sig: Sig::Ok, ident: Ident::Absent, first: First::Ready, as_server: 0, sig_pad: 0, extra_props: 0 };
+        let mut cells = vec![base.clone()];
+        for i in 0..12u8 {
+            cells.push(Cell { peer_type: PeerType::Named(i), ..base.clone() });
+        }
+        cells.push(Cell { peer_type: PeerType::Unknown, ..base.clone() });
+        cells.push(Cell { peer_type: PeerType::Missing, ..base.clone() });
+        for version in [(1u8, 0u8), (2, 1), (3, 1), (4, 0)] {
+            cells.push(Cell { version, ..base.clone() });
+        }
+        for mech in [Mech::Plain, Mech::Curve, Mech::Unknown, Mech::Empty, Mech::Unpadded] {
+            cells.push(Cell { mech, ..base.clone() });
+        }
+        for sig in [Sig::Byte0Wrong, Sig::Byte9Wrong] {
+            cells.push(Cell { sig, ..base.clone() });
+        }
+        for ident in [Ident::Empty, Ident::Len(1), Ident::Len(255), Ident::Len(256)] {
+            cells.push(Cell { ident, ..base.clone() });
+        }
+        for first in [First::OtherCommand, First::Message] {
+            cells.push(Cell { first, ..base.clone() });
+        }
+        for (i, cell) in cells.into_iter().enumerate() {
+            v.push(AcceptCase { cell, ipc: i % 3 == 2 });
+        }
+    }
+    v
+}
+
 #[derive(Debug, Clone, Serialize, Deserialize)]
 pub struct CompatCase {
     pub a: String,
@@ -437,6 +560,16 @@ pub fn run(ctx: &Ctx) -> (Report, PropertyMeta) {
     let r = run_cases(ctx, "compat", &cc, compat_outcome);
     report.exhaustive_parts.push("all 12 x 12 SocketType::compatible queries".to_string());
     report.merge(r);
+    // real accept path with a monitor (one thread: real transports)
+    {
+        let mut ctx1 = ctx.clone();
+        ctx1.threads = 1;
+        let ag = accept_grid();
+        let r = run_cases(&ctx1, "accept", &ag, accept_outcome);
+        report.exhaustive_parts.push(format!("real bound sockets (TCP / IPC) with a monitor: 9 local types x every cell that differs from the all-valid one in at most one coordinate: {} scripted raw clients", ag.len()));
+        report.merge(r);
+        crate::realnet::cleanup_scratch();
+    }
     // decoration: as-server, signature padding, extra properties, more identity lengths
     let n = t.pick(200_000, 3_000_000);
     let r = run_random(
@@ -487,7 +620,7 @@ pub fn run(ctx: &Ctx) -> (Report, PropertyMeta) {
 
     let meta = PropertyMeta {
         level: "exploration",
-        rule: "exhaustive grid of scripted raw peers attached to real sockets through the real greeting/READY exchange (in-memory pipes): local type x announced Socket-Type x version x mechanism x signature x identity x first post-greeting item; all 144 SocketType::compatible queries; proptest decoration. Oracle: independent admission predicate from RFC 23 (signature ok, major version >= 3, mechanism known, first item READY, type known and compatible per the RFC table typed into the harness, identity <= 255); admitted -> Ok(id), id = announced identity or fresh and distinct from a second peer's, registered exactly once observed behaviourally per socket type (inbound messages once each, even rotation / routing / one copy / one subscription outbound); rejected -> Err, both connection halves dropped, later traffic never delivered, nothing written, sends behave as with no peer; library's own greeting/READY well-formed in every cell. Non-trivial = cell differs from the all-valid cell in at least one coordinate; distinct by cell".into(),
+        rule: "exhaustive grid of scripted raw peers attached to real sockets through the real greeting/READY exchange (in-memory pipes): local type x announced Socket-Type x version x mechanism x signature x identity x first post-greeting item; all 144 SocketType::compatible queries; proptest decoration; and, over the REAL accept path (bound TCP / IPC sockets with a monitor installed), every cell that differs from the all-valid one in at most one coordinate: an admitted peer is reported as exactly one Accepted event, a refused one as exactly one AcceptFailed event and its connection is closed. Oracle: independent admission predicate from RFC 23 (signature ok, major version >= 3, mechanism known, first item READY, type known and compatible per the RFC table typed into the harness, identity <= 255); admitted -> Ok(id), id = announced identity or fresh and distinct from a second peer's, registered exactly once observed behaviourally per socket type (inbound messages once each, even rotation / routing / one copy / one subscription outbound); rejected -> Err, both connection halves dropped, later traffic never delivered, nothing written, sends behave as with no peer; library's own greeting/READY well-formed in every cell. Non-trivial = cell differs from the all-valid cell in at least one coordinate; distinct by cell".into(),
         assumptions: vec![
             "PLAIN and CURVE count as 'known mechanisms' as the statement says, although the library then runs the NULL handshake".into(),
             "STREAM is compatible with nothing (it does not speak ZMTP)".into(),
@@ -501,6 +634,11 @@ pub fn run(ctx: &Ctx) -> (Report, PropertyMeta) {
 pub fn replay(_ctx: &Ctx, kind: &str, case: &Value) -> Vec<Failure> {
     match kind {
         "cell" => parse_case::<Cell>(case).map(|c| cell_outcome(&c).failures),
+        "accept" => parse_case::<AcceptCase>(case).map(|c| {
+            let r = accept_outcome(&c).failures;
+            crate::realnet::cleanup_scratch();
+            r
+        }),
         "compat" => parse_case::<CompatCase>(case).map(|c| compat_outcome(&c).failures),
         _ => Err(vec![Failure::new("replay/unknown-kind", kind.to_string())]),
     }
